@@ -23,7 +23,8 @@ class U(dsl.Schema):
     d = dsl.Field(dsl.Integer())
 
 
-STATEMENTS = ['proj', 'filt:1', 'filt:5', 'ord', 'join', 'agg', 'filt2:1', 'filt2:5']
+STATEMENTS = ['proj', 'filt:1', 'filt:5', 'ord', 'join', 'agg', 'filt2:1', 'filt2:5', 'ref:1', 'ref:5', 'selfjoin']
+P = T.reference('p')  # an explicitly named reference shared by several statements
 
 
 def statement(sid: str) -> dsl.Statement:
@@ -40,6 +41,11 @@ def statement(sid: str) -> dsl.Statement:
         return T.inner_join(U, T.a == U.a).select(T.a, U.d)
     if sid == 'agg':
         return T.select(T.c, function.Count(T.a).alias('n')).groupby(T.c)
+    if sid.startswith('ref:'):
+        ref = T.reference('p')
+        return ref.select(ref.a, ref.b).where(ref.b > int(sid[4:]))
+    if sid == 'selfjoin':
+        return T.inner_join(P, T.a == P.a).select(T.a, P.b)
     raise KeyError(sid)
 
 
@@ -51,14 +57,15 @@ def tables(sid: str) -> tuple:
     return ('T', 'U') if sid == 'join' else ('T',)
 
 
-def write_sqlite(path: str, content: dict) -> None:
-    if os.path.exists(path):
-        os.unlink(path)
+def write_sqlite(path: str, content: dict, suffix: str = '') -> None:
+    """(Re)write the tables t<suffix>/u<suffix> of the database file (other tables of the file are kept)."""
     con = sqlite3.connect(path)
-    con.execute('create table t (a integer, b integer, c text)')
-    con.execute('create table u (a integer, d integer)')
-    con.executemany('insert into t values (?, ?, ?)', content['T'])
-    con.executemany('insert into u values (?, ?)', content['U'])
+    con.execute(f'drop table if exists t{suffix}')
+    con.execute(f'drop table if exists u{suffix}')
+    con.execute(f'create table t{suffix} (a integer, b integer, c text)')
+    con.execute(f'create table u{suffix} (a integer, d integer)')
+    con.executemany(f'insert into t{suffix} values (?, ?, ?)', content['T'])
+    con.executemany(f'insert into u{suffix} values (?, ?)', content['U'])
     con.commit()
     con.close()
 
@@ -75,8 +82,9 @@ def make_feed(kind: str, location: str, content: typing.Optional[dict] = None):
     """kind: sql (alchemy over a sqlite file) | csv (monolite over csv files) | inline (monolite inline)."""
     from forml.provider.feed import alchemy, monolite  # pylint: disable=import-outside-toplevel
 
-    if kind == 'sql':
-        return alchemy.Feed(sources={T: 't', U: 'u'}, connection=f'sqlite:///{location}')
+    if kind.startswith('sql'):
+        suffix = kind[3:]  # 'sql' -> tables t/u, 'sql2' -> tables t2/u2 of the same database
+        return alchemy.Feed(sources={T: f't{suffix}', U: f'u{suffix}'}, connection=f'sqlite:///{location}')
     if kind == 'csv':
         return monolite.Feed(csv={T: f'{location}_T.csv', U: f'{location}_U.csv'})
     return monolite.Feed(inline={T: [list(r) for r in content['T']], U: [list(r) for r in content['U']]})
@@ -104,6 +112,11 @@ def evaluate(sid: str, content: dict) -> list:
         return [[a, b] for a, b, c in sorted(trows, key=lambda r: (r[1], r[0]))[:3]]
     elif sid == 'join':
         out = [[a, d] for a, b, c in trows for ua, d in urows if a == ua]
+    elif sid.startswith('ref:'):
+        k = int(sid[4:])
+        out = [[a, b] for a, b, c in trows if b > k]
+    elif sid == 'selfjoin':
+        out = [[a, b2] for a, b, c in trows for a2, b2, c2 in trows if a == a2]
     elif sid == 'agg':
         counts: dict = {}
         for a, b, c in trows:
